@@ -668,11 +668,22 @@ do_retrieve(void)
 }
 
 
+/* The block at the head of emit_q lies before the next block to be written, so
+   it cannot be a real block: it was found by the scanner, retrieved and
+   decoded, and then the sequential decoder moved past it. */
+static bool
+emit_head_is_bogus(void)
+{
+  return (!empty(order_q) &&
+          pos_lt(peek(emit_q)->base, dq_get(order_q, 0).base));
+}
+
 static bool
 can_emit(void)
 {
   return (!empty(emit_q) &&
           (out_slots > EMIT_THRESH
+           || emit_head_is_bogus()
            || (out_slots > 0 && !empty(order_q)
                && pos_eq(peek(emit_q)->base, dq_get(order_q, 0).base))));
 }
@@ -683,6 +694,22 @@ do_emit(void)
   struct emit_blk *eb;
   struct out_blk *oblk;
   int rv;
+
+  if (emit_head_is_bogus()) {
+    /* Emitting this block would only produce output that do_reorder() throws
+       away.  Worse, while it waits here for an output slot beyond the reserve
+       it hides the next block to be written, which is queued behind it: with
+       all other slots taken by blocks further ahead nothing could ever run
+       again.  Release it right away. */
+    Trace(("Dropped bogus block at {%u} before emitting it",
+           nbsx2(peek(emit_q)->base)));
+    eb = dequeue(emit_q);
+    decoder_free(&eb->ds);
+    free(eb);
+    work_units++;
+    check_invariants();
+    return;
+  }
 
   out_slots--;
   eb = dequeue(emit_q);
